@@ -1,0 +1,18 @@
+//go:build verif
+
+// Ordering contracts of value-log truncation (property C14); only compiled with -tags verif.
+// `order L: A before B` is checked at the typestate level (control flow only): every execution of event B is preceded,
+// on every path, by an execution of event A that returned a nil error.
+package database
+
+// The SQL catalog is copied into a new transaction (and that transaction committed) before any value-log data is
+// discarded: the only copy of a catalog entry must never live in a deleted chunk.
+//@ func (*vlogTruncator).TruncateUptoTx
+//@   order catalog_copied_before_truncation: v.db.CopySQLCatalog before v.db.TruncateUptoTx
+
+// The catalog copy is committed and carries the truncation marker,
+// and success is reported only after the commit.
+//@ func (*db).CopySQLCatalog
+//@   order catalog_copied_before_commit: d.CopyCatalogToTx before tx.Commit
+//@   order marker_before_commit: tx.WithMetadata before tx.Commit
+//@   order committed_before_ok: tx.Commit before return nil
